@@ -108,6 +108,11 @@ def c14_post(outdir, shard, u):
         out["classes"]["mprotect-on-%s" % hit[0]] = out["classes"].get("mprotect-on-%s" % hit[0], 0) + 1
         if hit[0] == "synthetic-arena" and prot in ("PROT_READ|PROT_WRITE", "PROT_NONE") and ln >= 4 * 4096:
             continue  # the harness preparing / retiring a whole region (never a single-page goom write)
+        if hit[0] == "synthetic-arena" and u["name"] == "placeholder-bounds" and prot == "PROT_READ|PROT_WRITE|PROT_EXEC" and ln == 2 * 4096:
+            # the harness re-opening the two pages of the next placeholder cell (goom changes protections one page at a time)
+            for pg in range(lo, lo + ln, 4096):
+                last.pop(pg, None)
+            continue
         if "PROT_EXEC" not in prot:
             p = os.path.join(outdir, "strace-violation-%s-%d.json" % (u["name"], shard))
             _json.dump({"property": "C14", "unit": out["unit"], "message": "mprotect without PROT_EXEC on %s: %s" % (hit[0], line.strip()),
@@ -531,7 +536,7 @@ PROPS["C14"] = {
         {"name": "real", "pkg": "./internal/patch", "run": "^TestVerifC14Real$", "timeout": {"quick": 400, "thorough": 2400},
          "shards": {"quick": 1, "thorough": 4}, "wrap": strace_wrap, "post": c14_post},
         {"name": "placeholder-bounds", "pkg": "./internal/patch", "run": "^TestVerifC03Tight$", "env": {"VERIF_TIGHT_PROP": "C14"},
-         "timeout": {"quick": 400, "thorough": 2400}, "shards": {"quick": 1, "thorough": 2}},
+         "timeout": {"quick": 400, "thorough": 2400}, "shards": {"quick": 1, "thorough": 2}, "wrap": strace_wrap, "post": c14_post},
     ],
     "rule": "synthetic: rapid lays out a target 'function' (1..200 bytes of straight-line code ending in RET, 0..40 INT3 of padding, a neighbour function "
             "after it) at a generated page offset - including entries 1..13 bytes before a page end - in a never-reused R-X mapping and drives goom's "
@@ -539,7 +544,7 @@ PROPS["C14"] = {
             "ballast packages (go/types, net/http, math/big, text/template, ...) of the test binary is patched and unpatched with the whole text diffed "
             "at each step. Oracle: accepted => exactly the 13 entry bytes differ and hold the jump, neighbours/padding/other pages untouched, too-short "
             "functions refused (and refused again when asked a second and third time), unpatch restores byte-for-byte, /proc/self/maps shows r-xp. A third unit offers origin placeholders of need-4..need+3 bytes directly followed by a neighbour function: the trampoline write must stay "
-            "inside the placeholder's own body or be refused. The first two units run under strace: every mprotect on the image or "
+            "inside the placeholder's own body or be refused. All three units run under strace: every mprotect on the image or "
             "the synthetic arena keeps PROT_EXEC and the last protection of each page is R+X. Non-trivial: entry within 13 bytes of a page end, extent "
             "within +-3 of 13, or a write crossing a page; every patched real function; distinct by layout / function name / page.",
     "assumptions": ["a tiny body glued to its neighbour without padding is not generated (no Go binary contains one)", "ballast functions are never executed by the harness or goom"],
